@@ -476,6 +476,10 @@ class Runner:
                         lines.append('FPR %d %s %s' % (kk, hx(pk), hx(dd)))
                 bat.append(('STA', None, len(lines)))
                 lines.append('STA')
+                if self.focus in ('C05', 'C09', 'C17', 'C18'):
+                    # the byte keys the six query indexes really hold (verif hook), in LMDB's own order
+                    bat.append(('KYS', None, len(lines)))
+                    lines.append('KYS')
                 for t in g.tables:
                     bat.append(('XDP', t, len(lines)))
                     lines.append('XDP ' + t)
@@ -641,6 +645,19 @@ def judge(c, hists, oracles, relevant=None):
                         bad('oracle', '%s%s = %s, specification: %s' % (kind, (kk, dd[:10]), a[:20], [x[:14] for x in want]), bi)
                     if len(hs) > 1:
                         bad('oracle', 'two retrievable events at one replaceable address', bi)
+                elif kind == 'KYS':
+                    # LMDB's iteration order is the bytewise order of the keys, table by table, no key twice
+                    if a.startswith('ok'):
+                        per = {}
+                        for part in ([] if a[3:] == '_' else a[3:].split(',')):
+                            t_, _, k_ = part.partition(':')
+                            per.setdefault(t_, []).append(bytes.fromhex(k_))
+                        for t_, ks in per.items():
+                            if any(not (x < y) for x, y in zip(ks, ks[1:])):
+                                bad('oracle', 'the %s index is not iterated in strictly ascending bytewise key order' % t_, bi)
+                        c.count('index_keys_compared', sum(len(v) for v in per.values()))
+                    else:
+                        bad('oracle', 'the index keys could not be read: %s' % a[:40], bi)
                 elif kind == 'STA' and 'counts' in oracles:
                     kv = dict(x.split('=') for x in a.split(' '))
                     n = len(impl_live) if 'live' not in oracles else len(live)
